@@ -253,18 +253,29 @@ fn chunks_of<'a>(d: &'a [u8], splits: &[usize]) -> Vec<&'a [u8]> {
     out
 }
 
-fn s16_chunks(chunks: &[&[u8]], fixed: bool) -> Sum16BitWords {
+/// Successive additions. The 4/8/16 byte adders take `&mut self` *and* return the new sum: whatever an
+/// implementation does with the object it was called on, that object has to keep describing a byte
+/// string the caller knows - the bytes before the call or the bytes after it - or an accumulator kept
+/// around (a cached pseudo-header sum) yields checksums of data nobody added. Second value: the first
+/// adder that left its object in a third state.
+fn s16_chunks(chunks: &[&[u8]], fixed: bool) -> (Sum16BitWords, Option<String>) {
     let mut s = Sum16BitWords::new();
+    let mut bad = None;
     for c in chunks {
-        s = match (fixed, c.len()) {
-            (true, 2) => s.add_2bytes([c[0], c[1]]),
-            (true, 4) => s.add_4bytes([c[0], c[1], c[2], c[3]]),
-            (true, 8) => s.add_8bytes((*c).try_into().unwrap()),
-            (true, 16) => s.add_16bytes((*c).try_into().unwrap()),
-            _ => s.add_slice(c),
+        let before = s.clone();
+        let (name, r) = match (fixed, c.len()) {
+            (true, 2) => ("", s.clone().add_2bytes([c[0], c[1]])),
+            (true, 4) => ("add_4bytes", s.add_4bytes([c[0], c[1], c[2], c[3]])),
+            (true, 8) => ("add_8bytes", s.add_8bytes((*c).try_into().unwrap())),
+            (true, 16) => ("add_16bytes", s.add_16bytes((*c).try_into().unwrap())),
+            _ => ("", s.clone().add_slice(c)),
         };
+        if !name.is_empty() && bad.is_none() && s != before && s != r {
+            bad = Some(format!("Sum16BitWords::{}: the accumulator it was called on holds {:?} afterwards - neither its value before ({:?}) nor the returned sum ({:?})", name, s, before, r));
+        }
+        s = r;
     }
-    s
+    (s, bad)
 }
 
 fn w32_chunks(start: u32, chunks: &[&[u8]], fixed: bool) -> u32 {
@@ -360,7 +371,11 @@ fn run_helper(spec: &Spec, ctx: &mut Ctx) -> Result<(), Failure> {
 
     // B: Sum16BitWords, successive additions
     if split != "w" {
-        let s = s16_chunks(&chunks, fixed);
+        let (s, bad) = s16_chunks(&chunks, fixed);
+        if let Some(m) = bad {
+            ck.ctx.eval(1);
+            ck.fail("Sum16BitWords::add_*", "chunks", "accumulator-describes-known-bytes", shape, m)?;
+        }
         ck.eq16("Sum16BitWords::add_*+ones_complement", "chunks", "split-independence", shape, wire(s.ones_complement()), exp)?;
         ck.eq16("Sum16BitWords::add_*+to_ones_complement_with_no_zero", "chunks", "split-independence-nozero", shape, wire(s.to_ones_complement_with_no_zero()), nz(exp))?;
         ck.note("S16.chunks", data.len(), sum, &split);
